@@ -444,6 +444,13 @@ async def _run_case(loop, case):
                 o["status"] = "timeout"
             except Exception as e:  # noqa: whatever the client raises is the outcome of the transfer
                 o["status"] = "exc:" + type(e).__name__
+                # the server closed the data connection under a client that was still writing (a refused
+                # transfer): the completion reply is on the control connection, unread - read it, so that the
+                # trace does not depend on how far the client had got
+                try:
+                    await asyncio.wait_for(a.parse_response(), 30)
+                except Exception:  # noqa
+                    pass
             else:
                 o["status"] = "226"
             await asyncio.sleep(0.5)
